@@ -144,13 +144,33 @@ def cumulative_case(ctx, rng, idx):
         boundary = 'dose_at_final_time'
     feats = {'model': code, 'direct': direct, 'regimen': kind,
              'boundary': boundary}
-    ctx.case((code, direct, kind, boundary), True, sample=dict(
+    ctx.case((code, direct, kind, boundary, idx % 3 == 1), True, sample=dict(
         feats, regimen_args={k: (v if not isinstance(v, myokit.Protocol)
                                  else 'myokit.Protocol') for k, v in
                              kw.items()}, events=ev, dosed=comp + '.' + var))
+    # order of the two configuration calls: usually route then regimen; in a
+    # third of the cases the route is chosen again (other compartment and /
+    # or other route type) AFTER the regimen has been set - the regimen the
+    # model keeps reporting must still be delivered
+    order = 'route_regimen'
+    if idx % 3 == 1:
+        order = 'route_regimen_reroute'
+    feats['call_order'] = order
     try:
-        m.set_administration(comp, amount_var=var, direct=direct)
-        m.set_dosing_regimen(**kw)
+        if order == 'route_regimen':
+            m.set_administration(comp, amount_var=var, direct=direct)
+            m.set_dosing_regimen(**kw)
+        else:
+            if am is not None and len(am.comps) > 1:
+                j0 = int(rng.integers(len(am.comps)))
+                c0, s0 = am.comps[j0]
+                m.set_administration(c0, amount_var=s0 + '_amount',
+                                     direct=bool(rng.integers(2)))
+            else:
+                m.set_administration(comp, amount_var=var,
+                                     direct=bool(rng.integers(2)))
+            m.set_dosing_regimen(**kw)
+            m.set_administration(comp, amount_var=var, direct=direct)
     except Exception as e:      # noqa
         ctx.violation_exc('configuration_raises', e, {'case': feats}, feats)
         return
